@@ -270,15 +270,20 @@ impl<F: Write + Seek> MiniAllocator<F> {
             let mut header = self.directory.seek_within_header(60)?;
             header.write_le_u32(self.minifat_start_sector)?;
             header.write_le_u32(1)?;
-        } else if self.minifat.len() % minifat_entries_per_sector == 0 {
+        } else {
+            // The in-memory MiniFAT has its trailing free entries trimmed, so
+            // the chain may well have room left; only extend it when it is
+            // really full.
             let start = self.minifat_start_sector;
-            self.directory.extend_chain(start, SectorInit::Fat)?;
-            let num_minifat_sectors = self
-                .directory
-                .open_chain(start, SectorInit::Fat)?
-                .num_sectors() as u32;
-            let mut header = self.directory.seek_within_header(64)?;
-            header.write_le_u32(num_minifat_sectors)?;
+            let num_minifat_sectors =
+                self.directory.open_chain(start, SectorInit::Fat)?.num_sectors();
+            if self.minifat.len()
+                >= num_minifat_sectors * minifat_entries_per_sector
+            {
+                self.directory.extend_chain(start, SectorInit::Fat)?;
+                let mut header = self.directory.seek_within_header(64)?;
+                header.write_le_u32(num_minifat_sectors as u32 + 1)?;
+            }
         }
         // Add a new mini sector to the end of the mini stream and return it.
         let new_mini_sector = self.minifat.len() as u32;
@@ -293,7 +298,6 @@ impl<F: Write + Seek> MiniAllocator<F> {
             self.directory.root_dir_entry().start_sector;
         let mini_stream_len = self.directory.root_dir_entry().stream_len;
         debug_assert_eq!(mini_stream_len % consts::MINI_SECTOR_LEN as u64, 0);
-        let sector_len = self.directory.sector_len();
 
         // If the mini stream doesn't have room for new mini sector, add
         // another regular sector to its chain.
@@ -302,7 +306,14 @@ impl<F: Write + Seek> MiniAllocator<F> {
                 debug_assert_eq!(mini_stream_len, 0);
                 self.directory.begin_chain(SectorInit::Zero)?
             } else {
-                if mini_stream_len % sector_len as u64 == 0 {
+                // The mini stream's chain is never shrunk, so it may be
+                // longer than the mini stream; only extend it when it is
+                // really full.
+                let capacity = self
+                    .directory
+                    .open_chain(mini_stream_start_sector, SectorInit::Zero)?
+                    .len();
+                if mini_stream_len >= capacity {
                     self.directory.extend_chain(
                         mini_stream_start_sector,
                         SectorInit::Zero,
